@@ -249,10 +249,17 @@ func (cs *Contracts) loadContractFile(path, pkgPath string) {
 		switch word {
 		case "func":
 			curF = &FuncContract{Pkg: pkgPath, Key: rest, Loops: map[int]*LoopContract{}, Unroll: map[int]int{}, File: path, Line: ln.n}
-			if _, dup := cs.Funcs[pkgPath+":"+rest]; dup {
+			fkey := pkgPath + ":" + rest
+			if strings.HasPrefix(rest, "iface ") {
+				// interface method contract (trusted by nature): "func iface (io.Writer).Write"
+				curF.Key = strings.TrimSpace(strings.TrimPrefix(rest, "iface "))
+				curF.Trusted = true
+				fkey = "iface:" + curF.Key
+			}
+			if _, dup := cs.Funcs[fkey]; dup {
 				errf(ln.n, "duplicate contract for %s", rest)
 			}
-			cs.Funcs[pkgPath+":"+rest] = curF
+			cs.Funcs[fkey] = curF
 			curL, curLemma, curPair, curGlobal = nil, nil, nil, ""
 		case "loop":
 			if curF == nil {
